@@ -26,8 +26,89 @@ from rtc import compcheck
 USES_THEORY = False
 
 
+def pipelines(tier, seed):
+    """CompilersPipeline (a compiler in its own right) as handed out by the real Factory for sequences of 1-3 compilation kinds, on generated
+    classical and temporal problems: compile returns (no exception other than the stages' documented rejections), the compiled problem is
+    well-formed, a plan back-conversion is available and converts the empty plan without raising"""
+    import random
+    import warnings
+    from rtc import compilers as RC, seqcheck as SC
+    from rtc.tgen import TGen
+    from unified_planning.environment import get_environment
+    from unified_planning.engines import CompilationKind as CK
+    from unified_planning.exceptions import UPNoSuitableEngineAvailableException
+    from unified_planning.plans import SequentialPlan, ActionInstance
+    rng = random.Random(seed + 808)
+    n = 30 if tier == "quick" else 300
+    failures, evals, selected = [], 0, 0
+    seqs = [[CK.TIMED_TO_SEQUENTIAL], [CK.QUANTIFIERS_REMOVING, CK.TIMED_TO_SEQUENTIAL], [CK.QUANTIFIERS_REMOVING, CK.GROUNDING],
+            [CK.CONDITIONAL_EFFECTS_REMOVING, CK.QUANTIFIERS_REMOVING, CK.GROUNDING], [CK.DISJUNCTIVE_CONDITIONS_REMOVING, CK.GROUNDING],
+            [CK.GROUNDING, CK.TIMED_TO_SEQUENTIAL], [CK.NEGATIVE_CONDITIONS_REMOVING, CK.GROUNDING], [CK.BOUNDED_TYPES_REMOVING, CK.GROUNDING]]
+    probs = [pr for _, pr in SC.problems(seed + 31, n // 2, features={"max_actions": 2})]
+    probs += [TGen(seed * 7 + i, fixed_durations=(i % 2 == 0), timed=(i % 3 == 0), simple=(i % 2 == 1)).problem(f"t{i}") for i in range(n // 2)]
+    with warnings.catch_warnings():
+        warnings.simplefilter("ignore")
+        for pr in probs:
+            env = pr.environment
+            saved = env.credits_stream
+            env.credits_stream = None
+            try:
+                for cks in seqs:
+                    try:
+                        pipe = env.factory.Compiler(problem_kind=pr.kind, compilation_kinds=cks)
+                    except UPNoSuitableEngineAvailableException:
+                        continue
+                    selected += 1
+                    evals += 1
+                    label = "+".join(c.name for c in cks)
+                    desc = {"pipeline": label, "problem": str(pr)}
+                    try:
+                        res = pipe.compile(pr)
+                    except Exception as e:  # noqa
+                        if "NOT SOLVABLE" in str(e) or type(e).__name__ in ("UPProblemDefinitionError",):
+                            continue
+                        # is it one stage's own failure (it also fails when the stages are run one by one, without the pipeline)?
+                        where, cur = "pipeline", pr
+                        for ck in cks:
+                            try:
+                                with env.factory.Compiler(problem_kind=cur.kind, compilation_kind=ck) as one:
+                                    cur = one.compile(cur).problem
+                            except Exception as e2:  # noqa
+                                if type(e2) is type(e):
+                                    where = "stage:" + ck.name
+                                break
+                        failures.append({"what": f"pipeline {label}: compile raised {type(e).__name__}: {' '.join(str(e)[:100].split())} [{where}:{type(e).__name__}]",
+                                         "concrete": desc, "observed": repr(e)})
+                        continue
+                    if res.problem is None:
+                        continue
+                    bad = compcheck.wellformed(res.problem)
+                    if res.plan_back_conversion is None:
+                        bad.append("no plan_back_conversion on the pipeline's result")
+                    else:
+                        try:
+                            res.plan_back_conversion(SequentialPlan([]))
+                        except Exception as e:  # noqa
+                            bad.append(f"plan_back_conversion raised {type(e).__name__} on the empty plan")
+                    for b in bad:
+                        failures.append({"what": f"pipeline {label}: {b} [pipeline]", "concrete": desc, "observed": b})
+                    if len(failures) >= 4:
+                        break
+            finally:
+                env.credits_stream = saved
+            if len(failures) >= 4:
+                break
+    return {"evaluations": evals, "failures": failures,
+            "rule": f"{selected} pipelines handed out by the real Factory (8 kind sequences incl. TIMED_TO_SEQUENTIAL stages) on {len(probs)} generated classical / temporal problems"}
+
+
 def bounded(tier, seed):
-    return compcheck.run(tier, seed, ["C08"])["C08"]
+    r = compcheck.run(tier, seed, ["C08"])["C08"]
+    pp = pipelines(tier, seed)
+    r["evaluations"] = r.get("evaluations", 0) + pp["evaluations"]
+    r["failures"] = list(r.get("failures", [])) + pp["failures"]
+    r["rule"] = r.get("rule", "") + "; " + pp["rule"]
+    return r
 
 
 # ======================================================================================================= proved kernels
